@@ -186,8 +186,16 @@ def judge(acc, stage_name, mode, msg, hist, obs):
         if any(x[0] == 81 for x in o["tx"]):
             acc.count("control_request_success")
         return
+    # "authentication succeeded" is judged on the wire (USERAUTH_SUCCESS sent), never by asking the
+    # implementation under test (Transport.is_authenticated() is exactly what _ensure_authed consults: a
+    # defect there must not blind - or crash - the oracle)
+    granted_before = any(x[0] == 52 for ob in obs[:-1] for x in ob["tx"])
     if mode != "then-login":
-        assert not pre["authed"], "stage %s is already authenticated" % stage_name
+        assert not granted_before, "stage %s: USERAUTH_SUCCESS was already sent" % stage_name
+        if pre["authed"]:
+            acc.count("is_authenticated()_true_without_USERAUTH_SUCCESS")
+    else:
+        assert granted_before, "then-login: the login did not succeed"
     if conn_cb:
         bad.append("application-consulted-before-auth:%s:%s" % (conn_cb[0][0], kind))
     if o["chan_created"] or o["channels"] or o["accepts"]:
